@@ -575,10 +575,7 @@ done:
 								}
 							}
 						} else {
-							switch v.(type) {
-							case map[string]any, []any, gen.Object, gen.Array, Keyed, Indexed:
-								stack = append(stack, v)
-							}
+							stack = stackAddValue(stack, v)
 						}
 					}
 				} else {
@@ -592,10 +589,7 @@ done:
 								}
 							}
 						} else {
-							switch v.(type) {
-							case map[string]any, []any, gen.Object, gen.Array, Keyed, Indexed:
-								stack = append(stack, v)
-							}
+							stack = stackAddValue(stack, v)
 						}
 					}
 				}
@@ -624,10 +618,7 @@ done:
 								}
 							}
 						} else {
-							switch v.(type) {
-							case map[string]any, []any, gen.Object, gen.Array, Keyed, Indexed:
-								stack = append(stack, v)
-							}
+							stack = stackAddValue(stack, v)
 						}
 					}
 				} else {
@@ -641,10 +632,7 @@ done:
 								}
 							}
 						} else {
-							switch v.(type) {
-							case map[string]any, []any, gen.Object, gen.Array, Keyed, Indexed:
-								stack = append(stack, v)
-							}
+							stack = stackAddValue(stack, v)
 						}
 					}
 				}
